@@ -514,6 +514,14 @@ def rand_spec(rng):
     for name in K.POINT_TIERS_1 + ["fricationAmplitude", "bypass", "gain"]:
         if rng.random() < 0.5:
             spec["points"][name] = rand_points(rng, hi, 5, lo)
+    if rng.random() < 0.12:
+        # a grid created without frication formants (Praat's "Create KlattGrid" takes 0 for any number of formants): the group is
+        # there, it holds no tracks
+        if rng.random() < 0.7:
+            spec["fric"], spec["fric_bw"] = [], []
+        else:
+            spec["oral"], spec["oral_bw"] = [], []
+        REC.cls("C19:kg:group-without-sub-tiers")
     if rng.random() < 0.25:
         # formant tracks that do not all cover the whole grid (a track that starts later or ends earlier); the first track of a
         # group keeps the grid's span, so the group's own span - the union of its tracks - is the one written in the file
